@@ -168,7 +168,9 @@ def run(spec, mon):
     n_random = 120 if tier == "quick" else 6000
     for i in range(n_random):
         gen = {"outcomes": OUTCOMES + ["abort"], "weights": {"abort": 0.4}} if i % 4 == 0 else {}
-        case = RB.gen_case(rng, gen=gen)
+        case = RB.gen_case(rng, gen=gen, p_user_skip=0.15)
+        if case["program"].get("user_skip"):
+            mon.seen("environment_skips_container", "yes")
         obs, pred = run_fault_free(lab, mon, case, sample=(i == 0 and shard < 3))
         if obs.escaped is not None or case["cfg"]["dry_run"]:
             continue
